@@ -508,7 +508,7 @@ def handle? : List String → Option String
     let s : Store := { loose, packed, logs := (parseList lg).map bytesOfString, dirs := (parseList d).map bytesOfString }
     let txn ← (parseList e).mapM parseEdit
     if !supported s txn then some "unsupported" else
-    let ops := if mode = .d then txnSteps driverCfg s txn else txnStepsM mode driverCfg s txn
+    let ops := txnStepsM mode driverCfg s txn
     some (if ops.isEmpty then "-" else " ".intercalate (ops.map showOp))
   | _ => none
 
